@@ -123,3 +123,13 @@ claim('C08',
       "on uniform axes.",
       "Trusted: exact algebra; solution-level statements follow with C03/C04.",
       "symbolic stencil extraction + exact comparison under atom renaming (symmetry transformations)", "DESIGN.md 5 C08")
+
+claim('C02',
+      "Static, consistency clause only: the extracted stencil of every spatial operator (diffusion, central and upwind advection, divergence, "
+      "gradient; 9 classes) is applied to smooth symbolic fields on smoothly graded spacing and expanded exactly as a Laurent series in the mesh "
+      "size; the divergent coefficients must vanish and the limit must equal div(D grad phi), div(u phi), div F, grad phi in the orthogonal "
+      "coordinates of the class (metric table as oracle), for every sign of the velocity. This decides the 'in particular' clause (metric factors, "
+      "signs, coefficient placement agree with the continuous operator). The headline clause - error decreasing at the scheme's order under "
+      "refinement - is a limit statement about runs and is NOT decided.",
+      "Trusted: exact truncated-series arithmetic; metric table from vector calculus. Convergence rate, stability, solver accuracy not decided.",
+      "symbolic stencil extraction + exact truncated Laurent-series (truncation-limit) analysis against a metric-table oracle", "DESIGN.md 5 C02")
